@@ -93,7 +93,7 @@ RR = "afkak.partitioner.RoundRobinPartitioner."
 class _:
     props = ["C18"]
     # randomStart is a class attribute that set_random_start() rebinds: read through self, so modelled as a field
-    fields = {"topic": "Any", "partitions": "List[int]", "iterpart": "Ref_Cycle", "randomStart": ("bool", False)}
+    fields = {"topic": "Any", "partitions": "List[int]", "iterpart": "Ref_Cycle", "randomStart": "bool"}
     invariant = {
         # the cycle runs over a permutation of the list the partitioner believes it serves
         "cycle-over-own-list": "self.partitions == sorted(self.iterpart.items)",
@@ -112,7 +112,7 @@ rr("_set_partitions", "(self: Ref_RoundRobinPartitioner, partitions: List[int]) 
    requires=["is_asc(partitions)"],           # the property speaks of ascending lists (the producer passes sorted ones)
    ensures={
        "fresh-cycle-over-the-given-list[C18]": "sorted(self.iterpart.items) == sorted(partitions) and self.partitions == sorted(partitions)",
-       "fixed-start-unless-random[C18]": "self.randomStart or self.iterpart.idx == 0",
+       "fixed-start-unless-random[C18]": "old(self.randomStart) or self.iterpart.idx == 0",
        "start-in-range[C18]": "0 <= self.iterpart.idx and (len(partitions) == 0 or self.iterpart.idx < len(partitions))",
    },
    raises={"ValueError": "self.randomStart and len(partitions) == 0"},
